@@ -294,6 +294,13 @@ impl RouterHandler {
             &bmp_state_lock.as_ref().unwrap().router_id(),
         );
 
+        // The state machine metrics of this router go with the connection,
+        // as its connection metrics do: bmp_num_connected_routers is the
+        // number of routers that have state machine metrics.
+        self.bmp_metrics.remove_router_metrics(
+            &bmp_state_lock.as_ref().unwrap().router_id(),
+        );
+
         // Signal withdrawal of all bgp sessions monitored via this BMP
         // session:
         let session_ids = ingress_register.ids_for_parent(ingress_id);
